@@ -630,6 +630,7 @@ func c18Spaces(c *fw.Ctx) {
 				}
 			}
 		})
+	c18ShortSpace(c)
 }
 
 func c18MsgNames() string {
